@@ -261,11 +261,11 @@ func c12MTCP(r *ev.Run, thorough bool, st *c12Stats) {
 
 type nullModem struct{ mtu int }
 
-func (m nullModem) Mtu() int                        { return m.mtu }
-func (m nullModem) Send(bbc.Fragment) error         { return nil }
-func (m nullModem) Receive() (bbc.Fragment, error)  { return bbc.Fragment{}, io.EOF }
-func (m nullModem) Close() error                    { return nil }
-func (m nullModem) String() string                  { return "null-modem" }
+func (m nullModem) Mtu() int                       { return m.mtu }
+func (m nullModem) Send(bbc.Fragment) error        { return nil }
+func (m nullModem) Receive() (bbc.Fragment, error) { return bbc.Fragment{}, io.EOF }
+func (m nullModem) Close() error                   { return nil }
+func (m nullModem) String() string                 { return "null-modem" }
 
 func bbcTrain(b bpv7.Bundle, tid byte, mtu int) ([]bbc.Fragment, error) {
 	t, err := bbc.NewOutgoingTransmission(tid, b, mtu)
